@@ -10,6 +10,8 @@ EXTENDS Ref, Judge
 ReadOps == {"Read", "Sweep"}
 
 \* fn: entry point; in: input; rr: its recorded result [ok, ser, serok, rem, hasrem, acc]; e: the event (for extra arguments)
+\* primitive values that ARE a view of the bytes they were read from (an Integer / I2PString is the sub-slice itself)
+ViewReaders == {"ReadInteger", "NewInteger", "ReadI2PString", "ReadDate", "NewDate", "ReadHash", "NewHashFromSlice"}
 HashQueries == {"Hash", "IdentHash", "Base32Address", "Base64", "Equals", "Equal", "Bytes"}
 VerifyQueries == {"Verify", "VerifySignature"}
 ValidateQueries == {"Validate", "IsValid", "ValidateStructure"}
@@ -36,6 +38,12 @@ JReadOne(fn, in, rr, e) ==
      R("C17", "address_queries_stable", acc /\ "stab" \in DOMAIN rr /\ rr.stab.done /\ fn = "ReadRouterAddress", Len(rr.stab.unstable) = 0, cls),
      \* the parser and the queries leave the caller's buffer alone
      R("C08", "input_buffer_not_written", "in_unchanged" \in DOMAIN rr, rr.in_unchanged, cls),
+     \* what a caller appends to the SERIALISATION a value returned must not land in the input buffer (the remainder stays the suffix of the
+     \* input while the caller goes on using the value).  Views handed out by other accessors are the aliasing question of C08 / X05.
+     R("C03", "remainder_survives_appends_to_serialisation", "append_unsafe" \in DOMAIN rr /\ fn \notin ViewReaders,
+       \A i \in 1..Len(rr.append_unsafe) : rr.append_unsafe[i] \notin {"Bytes", "Data", "Serialize"}, cls),
+     R("C08", "appends_to_serialisation_leave_input_alone", "append_unsafe" \in DOMAIN rr /\ fn \notin ViewReaders,
+       \A i \in 1..Len(rr.append_unsafe) : rr.append_unsafe[i] \notin {"Bytes", "Data", "Serialize"}, cls),
      R("C03", "rem_is_suffix", acc /\ rr.hasrem, IsSuffix(rr.rem, in), cls),
      R("C03", "consumes_declared_extent", acc /\ rr.hasrem /\ ref.known /\ ref.ok,
        consumed = ref.consumed, cls),
